@@ -173,25 +173,32 @@ def hasNonFinite (fin : α → Bool) (vars : List (Var α)) : Prop :=
 def tripsAt (E : Env ω ρ ξ α) (cb : Option (Callback ω)) (w : ω) (nanstop : Bool) (k : Nat) : Prop :=
   nanstop = true ∧ hasNonFinite E.fin (E.vars (afterStep E cb w k))
 
-/-- sum of the durations of the `step()` calls of iterations `0..k` — no callback time in it -/
-def stepTime (E : Env ω ρ ξ α) (cb : Option (Callback ω)) (w : ω) (k : Nat) : Nat :=
-  ((List.range (k + 1)).map (fun j => E.stepTicks (worldAt E cb w j))).sum
+/-- total duration of the `step()` calls of the first `n` iterations — no callback time in it -/
+def stepTime (E : Env ω ρ ξ α) (cb : Option (Callback ω)) (w : ω) (n : Nat) : Nat :=
+  ((List.range n).map (fun j => E.stepTicks (worldAt E cb w j))).sum
 
-/-- sum of the durations of the callbacks of iterations `0..k-1` -/
-def cbTime (E : Env ω ρ ξ α) (cb : Option (Callback ω)) (w : ω) (k : Nat) : Nat :=
-  ((List.range k).map (fun j => cbTicks cb (afterStep E cb w j))).sum
+/-- total duration of the callbacks of the first `n` iterations -/
+def cbTime (E : Env ω ρ ξ α) (cb : Option (Callback ω)) (w : ω) (n : Nat) : Nat :=
+  ((List.range n).map (fun j => cbTicks cb (afterStep E cb w j))).sum
 
 /-- the record iteration `k` must produce when the loop starts with counter value `i0`,
-    state `w` and `e0` ticks already on the (running) default timer -/
+    state `w` and `e0` ticks already on the default timer: numbered `i0 + k`, reporting the time
+    spent in the `step()` calls so far (and nothing of the callbacks), with the accessor values
+    of the state right after the step -/
 def specRow (E : Env ω ρ ξ α) (cb : Option (Callback ω)) (w : ω) (i0 : Int) (e0 : Nat) (k : Nat) :
     Row ρ :=
-  ⟨i0 + k, e0 + stepTime E cb w k, E.fields (afterStep E cb w k)⟩
+  ⟨i0 + k, e0 + stepTime E cb w (k + 1), E.fields (afterStep E cb w k)⟩
 
 /-- the callback invocation iteration `k` must produce (`c0` = clock when the loop starts) -/
 def specCb (E : Env ω ρ ξ α) (cb : Option (Callback ω)) (w : ω) (i0 : Int) (c0 : Nat) (k : Nat) :
     CbRec ω :=
-  let enter := c0 + stepTime E cb w k + cbTime E cb w k
+  let enter := c0 + stepTime E cb w (k + 1) + cbTime E cb w k
   ⟨i0 + k, afterStep E cb w k, enter, enter + cbTicks cb (afterStep E cb w k)⟩
+
+/-- the two timer calls that bracket the callback of iteration `k` -/
+def specBracket {L : Type} (E : Env ω ρ ξ α) (cb : Option (Callback ω)) (w : ω) (c0 : Nat) (k : Nat) :
+    List (Call L) :=
+  [⟨(specCb E cb w 0 c0 k).enter, .stop, .none⟩, ⟨(specCb E cb w 0 c0 k).leave, .start, .none⟩]
 
 end
 
